@@ -13,3 +13,9 @@ void good(struct T *t, struct C *c) {
   c->loop_shift = shift;
 }
 void spin(int *p) { int k = *p; while (k > 0) { } }
+/* rotation search without / with a step counter */
+unsigned rot_bad(unsigned x) { int s = 0; while (x > 0xff) { x = (x << 2) | (x >> 30); s++; } return s; }
+unsigned rot_good(unsigned x) { int s = 0; while (x > 0xff && s < 16) { x = (x << 2) | (x >> 30); s++; } return s; }
+/* power-of-two search whose shift count is the induction variable: without / with a bound on the count */
+int log2_bad(int size) { int shift = 0; while ((1 << shift) < size) shift++; return shift; }
+int log2_good(int size) { int shift = 0; while (shift < 30 && (1 << shift) < size) shift++; return shift; }
